@@ -534,9 +534,14 @@ def main(tier: str) -> int:
     run = Run(PID, tier, "proof")
     use_repo()
     gen = translate_env.regenerate()
+    from harness import translate_globals
+    inv = translate_globals.regenerate()
     lean = lean_check("Props.C18", ["drv_env"])
     for r in gen["refusals"]:
         lean.broken.append({"module": "Generated.Env", "reason": "translator refused: " + r})
+    for r in inv["refusals"]:
+        lean.broken.append({"module": "Generated.ProcessState", "reason": "translator refused: " + r})
+    run.coverage["process_state_inventory_entries"] = inv["entries"]
     cap_loc = gen["constants"].get("capLocation", "?")
     run.coverage["generated_constants"] = gen["constants"]
     run.coverage["cap_location_in_source"] = cap_loc
